@@ -316,13 +316,15 @@ def validate_traces(module, cfg, events, timeout=900, heap="4g", env=None, dfs=F
         shutil.rmtree(d, ignore_errors=True)
     if not res.ok:
         raise MachineryError("trace validation %s/%s: TLC status %s\n%s" % (module, cfg, res["status"], res["output"][-4000:]))
-    verdicts = [p for p in res["printed"] if p.startswith('<<"VERDICT"')]
-    if not verdicts:
+    # TLC wraps long tuples over several lines: match VERDICT / VIOL tuples in the whole output
+    pat = re.compile(r'<<\s*"(VERDICT|VIOL)",\s*"((?:[^"\\]|\\.)*)"\s*>>', re.S)
+    found = pat.findall(res["output"])
+    if not any(k == "VERDICT" for k, _ in found):
         raise MachineryError("trace validation %s: no VERDICT line\n%s" % (module, res["output"][-3000:]))
     viol = []
-    for v in verdicts:
-        val = parse_value(v)
-        for item in json.loads(val[1]) if val[1] else []:
+    for _, body in found:
+        text = json.loads('"' + body.replace("\n", " ") + '"') if body else ""
+        for item in (json.loads(text) if text else []):
             if item not in viol:
                 viol.append(item)
     return res, viol
